@@ -2,9 +2,10 @@
 # usage: sweep.sh <tier> [ids...]  — runs the checks one after another and prints one summary line each
 TIER="$1"; shift
 IDS="$@"
+HERE="$(cd "$(dirname "$(readlink -f "$0")")/.." && pwd)"
 [ -z "$IDS" ] && IDS="C01 C02 C03 C04 C05 C06 C07 C08 C09 C10 C11 C12 C13 C14 C15 C16 C17 C18 C19 C20"
 for c in $IDS; do
-  /verif/check $c $TIER > /tmp/sweep-$c-$TIER.log 2>&1
+  "$HERE/check" $c $TIER > /tmp/sweep-$c-$TIER.log 2>&1
   rc=$?
   echo "rc=$rc $(grep -a -E "^$c $TIER:" /tmp/sweep-$c-$TIER.log)"
   grep -a -E "^(VIOLATION|KNOWN-FINDING|BUILD-FAILED|NOTE)" /tmp/sweep-$c-$TIER.log | head -5
